@@ -15,7 +15,9 @@ and checked against the full (sleep-disabled, default nvmax) solve of the same s
   * needed active dofs > nvmax  <=>  OverflowType.NVMAX is set for that world; ncdof == min(needed, nvmax); maps consistent
   * no overflow: dofs of asleep trees have qacc (and qacc_smooth, qfrc_constraint) exactly 0, even if the output
     buffers held garbage before
-  * no overflow, all awake: qacc, qacc_smooth, qfrc_constraint, nefc and efc.force equal the full solve (`solver`)
+  * no overflow, all awake: qacc, qacc_smooth, qfrc_constraint, nefc and efc.force (rows matched by type and Jacobian,
+    their order may differ when trees were woken during the forward pass) equal the full solve (`solver`; qacc in the
+    solver's own energy norm, see _qacc_close; qacc_smooth `f32dyn`)
   * no overflow, `apart` scene: awake trees' qacc / qacc_smooth / qfrc_constraint equal the full solve restricted to
     them (the inertia and the constraints are block diagonal over trees)
   * no overflow: qfrc_constraint of awake dofs equals J^T efc.force restricted to them (f32dyn)
@@ -41,7 +43,10 @@ BOUNDS = {
 }
 ASSUMPTIONS = [
   "awake sets are forced through Data.tree_asleep self-cycles + sleep.update_sleep (the mechanism of sleep_test.py); sleeping trees carry zero velocity",
-  "full solve = same state on the same model without mjENBL_SLEEP and default nvmax; class `solver` (2e-3 of 1+max|ref|) for solver outputs",
+  "full solve = same state on the same model without mjENBL_SLEEP and default nvmax; class `solver` (2e-3 of 1+max|ref|) for forces, f32dyn for qacc_smooth",
+  "qacc is compared in the energy norm 0.5 e^T M e/(meaninertia*nv) <= 10*tolerance, the quantity the Newton solver's stopping rule bounds (a light dof, "
+  "e.g. the spin of a thin capsule with inertia 7e-4, may legitimately differ by 3e-2 between two converged solves while forces agree to 1e-5)",
+  "rows of sleeping trees (limits, friction loss) stay in MJWarp's constraint list with a zero compacted Jacobian; their efc.force is not compared",
   "when NVMAX overflows the numerical result is unspecified; only the bit, ncdof clamp and absence of a crash are checked",
   "the `api` entry calls island.update_active_dofs / solver.smooth_solve_compact / solver.solve_compact directly, like solver_test.CompactSolverTest",
   "CPU backend only",
